@@ -41,7 +41,7 @@ pub fn prop() -> Prop {
         stub: &["transport", "store", "glue", "random source", "replaying network"],
         independent: &["harness algebra for the expected group key"],
         ref_sample: |_| 0,
-        required_probes: &["histories_exhaustive_n3", "part3_ok_consistent_mixed_runs", "part3_rejected_cross_run_share", "part3_rejected_misaddressed_share", "global_assignments_checked", "signed_after_mixed_assignment"],
+        required_probes: &["histories_exhaustive_n3", "part3_ok_consistent_mixed_runs", "part3_rejected_cross_run_share", "part3_rejected_misaddressed_share", "global_assignments_checked", "signed_after_mixed_assignment", "runs_with_different_thresholds"],
         prepare: None,
     }
 }
@@ -80,7 +80,9 @@ fn gen_c<C: Suite>(seed: u64, run: u64, tier: Tier) -> Scenario {
         (Tier::Thorough, false, true) => 4000,
         (Tier::Thorough, false, false) => 18522,
     };
-    s.extra = json!({"limit_per_participant": limit});
+    // in a third of the worlds the concurrent run B uses ANOTHER threshold
+    let t_b = if n >= 3 && p.chance(1, 3) { (2..=n).filter(|x| *x != t).nth(p.below((n - 2) as u64) as usize).unwrap_or(t) } else { t };
+    s.extra = json!({"limit_per_participant": limit, "dkg_t": {"1": t_b}});
     s
 }
 
@@ -134,6 +136,10 @@ fn exec_c<C: Suite>(scen: &Scenario) -> Exec {
         runs.push(m);
     }
     let limit = scen.extra["limit_per_participant"].as_u64().unwrap_or(500);
+    let t_of_run: [u16; 2] = [t, scen.extra["dkg_t"]["1"].as_u64().map(|v| v as u16).unwrap_or(t)];
+    if t_of_run[0] != t_of_run[1] {
+        rep.probe("runs_with_different_thresholds");
+    }
     let r1_opts = 3u64; // A, B, absent
     let r2_opts = (2 * (n - 1) + 1) as u64; // (run, addressee) or absent
     let per_sender = r1_opts * r2_opts;
@@ -264,7 +270,9 @@ fn exec_c<C: Suite>(scen: &Scenario) -> Exec {
                 Err(_) => return Exec::Violation(Violation::new("C09", "C09.step_panicked", format!("part3 panicked: {}", desc())), rep),
                 Ok(r) => r,
             };
-            let consistent = senders.iter().enumerate().all(|(k, _j)| slots[k].0 < 2 && r2_desc[k] == Some((slots[k].0 as usize, i)));
+            // consistent = every round-2 slot is (run filed for that sender in round 1, addressed to i) - and, when the two runs
+            // differ in threshold, every filed round-1 contribution has the threshold of the participant's own run
+            let consistent = senders.iter().enumerate().all(|(k, _j)| slots[k].0 < 2 && r2_desc[k] == Some((slots[k].0 as usize, i)) && t_of_run[slots[k].0 as usize] == t_of_run[own]);
             match res {
                 Ok((kp, pk)) => {
                     if !consistent {
@@ -274,7 +282,7 @@ fn exec_c<C: Suite>(scen: &Scenario) -> Exec {
                         );
                     }
                     let filed_ids: Vec<Identifier<C>> = ids.clone();
-                    if let Some(v) = check_key_material::<C>("C09", &desc(), &kp, &pk, t, Some(&filed_ids)) {
+                    if let Some(v) = check_key_material::<C>("C09", &desc(), &kp, &pk, t_of_run[own], Some(&filed_ids)) {
                         return Exec::Violation(v, rep);
                     }
                     // group key = sum of the FILED constant-term commitments plus own
@@ -346,8 +354,9 @@ fn exec_c<C: Suite>(scen: &Scenario) -> Exec {
                 return Exec::Violation(Violation::new("C09", "C09.participants_diverged", format!("global run assignment {g:#b}: participants {i} and 0 completed with different public key packages")), rep);
             }
         }
-        // a random t-subset signs
-        let sub = gp.subset(n, t as usize);
+        // a random t-subset signs (t of the run everybody completed on; mixed-threshold assignments never complete)
+        let tg = outs[0].0.min_signers().clone();
+        let sub = gp.subset(n, tg as usize);
         let msg = gp.bytes(16);
         let mut nn = Vec::new();
         let mut cm = BTreeMap::new();
